@@ -1,0 +1,40 @@
+//go:build verif
+// +build verif
+
+package concurrencylimiter
+
+import (
+	"context"
+	"sync/atomic"
+)
+
+// VerifHook, when set, is called at the points that separate the atomic status
+// operations of a holder from the channel operations that follow them. It is
+// only compiled with the verif build tag and is used by the verification
+// harness to observe and to control interleavings.
+var VerifHook func(point string, holder interface{}, status int64, chanLen int)
+
+func verifAt(point string, h *holder) {
+	if f := VerifHook; f != nil {
+		f(point, h, atomic.LoadInt64(&h.status), len(h.l.ch))
+	}
+}
+
+func verifAtLimiter(point string, l *limiter) {
+	if f := VerifHook; f != nil {
+		f(point, nil, -1, len(l.ch))
+	}
+}
+
+// VerifState reports the fill and capacity of the limiter attached to ctx and
+// the status of the holder attached to ctx (-1 if none).
+func VerifState(ctx context.Context) (chanLen, chanCap int, status int64) {
+	status = -1
+	if l, ok := ctx.Value(limiterKey{}).(*limiter); ok {
+		chanLen, chanCap = len(l.ch), cap(l.ch)
+	}
+	if h, ok := ctx.Value(holderKey{}).(*holder); ok {
+		status = atomic.LoadInt64(&h.status)
+	}
+	return
+}
